@@ -249,8 +249,12 @@ class CW(object):
             if late:
                 res.violation("polled-after-cancel-true", "%s: the poll function was still shown the future's descriptor (seq %d) after cancel() had returned True (seq %d)"
                               % (where, late[0][0], s))
-        if "retry" in self.has and any_rets and "throttle" not in above:
-            s = min(any_rets)
+        # (a ThrottleFuture still queued has no delegate to forward to: with a throttle above the retry layer the rule
+        # applies to cancel() calls issued after the retry layer had already been handed the callable)
+        first_handed = [e[0] for e in evs if e[3] == "rec.submit" and e[4].get("fn") == "target"]
+        cancels_after_handover = [ret for (inv, ret, r, who) in self.cancels if first_handed and inv > first_handed[0]]
+        if "retry" in self.has and any_rets and ("throttle" not in above or cancels_after_handover):
+            s = min(any_rets) if "throttle" not in above else min(cancels_after_handover)
             # submissions arriving at the retry layer's own delegate (recording shim below it)
             late_sub = [e for e in evs if e[3] == "rec.submit" and e[4].get("fn") == "target" and e[0] > s]
             if late_sub:
@@ -607,15 +611,7 @@ def run_comb(case, res):
             instr.advance(D)
             res.execs += 1
             check_common(res)
-            if comb == "apply" and pre_cancelled is not None:
-                # the chain never got past the cancelled input: there is no input it is waiting for
-                expect = []
-            elif comb == "apply":
-                # f_apply awaits its inputs one after the other: the request goes to the input it
-                # is currently waiting for (the innermost pending work), which cancels the output
-                if not any(f.cancel_calls for f in expect):
-                    res.violation("cancel-not-propagated/comb/apply", "f_apply: output.cancel() -> %r reached none of the pending inputs" % (r,))
-                expect = []
+            # (f_apply waits for the function future and all arguments together: every pending one is asked)
             for f in expect:
                 if f.done() and not f.cancelled():
                     continue
